@@ -696,3 +696,74 @@ func acceptOverflowRun(r *vh.Runner, c *vh.Case, i int) {
 		go cl.Close()
 	}
 }
+
+// roamUnderWritesRun (real time): the server handle and the client write
+// without pause while the client changes its source address a dozen times; the
+// race build watches the address hand-over between the receive loop and the
+// writers, and every call returns.
+func roamUnderWritesRun(r *vh.Runner, c *vh.Case, i int) {
+	rng := vh.NewRand(r.Seed, "c17-roam", i)
+	cv := &transport.VerifyConfig{}
+	w := fix.NewWorld(false, cv, nil)
+	cv.Store = w.PKI.Store()
+	defer func() { go w.Server.Close() }()
+	id := w.PKI.Issue(certs.RawStringName("client"))
+	cl, cep := w.NewClient(id, rng.Chance(0.3), 2*time.Second)
+	if err := cl.Handshake(); err != nil {
+		c.Inconclusive("handshake: " + err.Error())
+		return
+	}
+	defer func() { go cl.Close() }()
+	h, err := w.Server.AcceptTimeout(2 * time.Second)
+	if err != nil {
+		c.Inconclusive("accept: " + err.Error())
+		return
+	}
+	stop := make(chan struct{})
+	var wg sync.WaitGroup
+	writer := func(write func([]byte) error) {
+		defer wg.Done()
+		msg := make([]byte, 40)
+		for k := 0; k < 3000; k++ {
+			select {
+			case <-stop:
+				return
+			default:
+			}
+			write(msg)
+		}
+	}
+	reader := func(read func([]byte) (int, error), dl func(time.Time) error) {
+		defer wg.Done()
+		buf := make([]byte, 2000)
+		for {
+			select {
+			case <-stop:
+				return
+			default:
+			}
+			dl(time.Now().Add(20 * time.Millisecond))
+			read(buf)
+		}
+	}
+	wg.Add(4)
+	go writer(h.WriteMsg)
+	go writer(cl.WriteMsg)
+	go reader(h.ReadMsg, h.SetReadDeadline)
+	go reader(cl.ReadMsg, cl.SetReadDeadline)
+	for k := 0; k < 12; k++ {
+		cep.SetSource(simnet.Addr(54000+rng.Intn(4000), 3000+rng.Intn(50000)))
+		time.Sleep(time.Duration(200+rng.Intn(800)) * time.Microsecond)
+	}
+	close(stop)
+	done := make(chan struct{})
+	go func() { wg.Wait(); close(done) }()
+	r.Count("evaluations", 1)
+	r.Count("roams_under_writes", 12)
+	r.Nontrivial(fmt.Sprintf("roam-writes|%d", i))
+	select {
+	case <-done:
+	case <-time.After(15 * time.Second):
+		c.Violate("C17:transport-call-never-returns:writers-and-readers-while-roaming", map[string]any{})
+	}
+}
